@@ -32,6 +32,23 @@ Theorem C19_completed_unpack_has_marker : forall prefix ar f f1,
   fetch_is_ok prefix (unpack prefix ar None f) = true.
 Proof. exact completed_unpack_has_marker. Qed.
 
+(* "fully unpacked", exactly: a directory that is handed out holds, below the crate's own directory,
+   for every path the content of the LAST regular-file entry the archive unpacks there and nothing
+   else — nothing left over from an earlier (partial or foreign) tree, no entry missing *)
+Theorem C19_accepted_tree_is_the_archive : forall prefix ar f f1 q,
+  fold_left (unpack_step prefix) ar (fs_remove_dir f prefix, Running) = (f1, Running) ->
+  under prefix q = true -> q <> [prefix; MARKER] ->
+  fs_get (unpack prefix ar None f) q = archive_says ar q.
+Proof. exact accepted_tree_is_the_archive. Qed.
+Example C19_accepted_tree_nonvacuous :
+  let ar := [ {| en_absolute := false; en_path := [CNormal 9; CNormal 5]; en_kind := EFile; en_content := 7 |};
+              {| en_absolute := false; en_path := [CNormal 9; CNormal 5]; en_kind := EFile; en_content := 8 |} ] in
+  let f := [([9; 6], 3); ([4; 1], 2)] in
+  snd (fold_left (unpack_step 9) ar (fs_remove_dir f 9, Running)) = Running /\
+  fs_get (unpack 9 ar None f) [9; 5] = Some 8 /\ archive_says ar [9; 5] = Some 8 /\
+  fs_get (unpack 9 ar None f) [9; 6] = None /\ fs_get (unpack 9 ar None f) [4; 1] = Some 2.
+Proof. vm_compute. auto 6. Qed.
+
 (* Entries in the model are regular files and directories: symlink and hard-link entries are
    not unpacked at all (fact re-read from the source) — with them, an archive could write into
    a sibling crate's directory through a link it created itself (original defect, fixed). *)
@@ -52,3 +69,4 @@ Print Assumptions C19_interrupted_unpack_has_no_marker.
 Print Assumptions C19_failed_unpack_has_no_marker.
 Print Assumptions C19_retry_is_a_clean_unpack.
 Print Assumptions C19_completed_unpack_has_marker.
+Print Assumptions C19_accepted_tree_is_the_archive.
